@@ -74,21 +74,29 @@ def build(pc, E, canary=None):
             [{'pattern': '/n/<k:int>/<f*float>', 'mode': 'redirect', 'paths': ['/n/5', '/n/5/1.5/2', '/n/x', '/n/5/1.5/x']},
              {'pattern': '/<a?int>/<b+>', 'mode': 'redirect', 'paths': ['/5/x', '/x', '/x/y', '/ 5/x']},
              {'pattern': '/a/<b>/', 'mode': 'strict', 'paths': ['/a/x/', '/a/x', '/a//x/', '/a/x//']}]
+    # falsy conversions (0, -0, 0.0, ...) and every type x operator, with and without a trailing slash
+    segs = ['0', '-0', '0.0', '.0', '0e5', '00', '7', 'x', '1.5']
+    for ty in ('', 'int', 'float', 'str'):
+        for op in ('', ':', '?', '*', '+'):
+            for tail in ('', '/'):
+                for m in ('strict', 'redirect', 'rewrite'):
+                    paths = ['/p' + tail] + ['/p/%s%s' % (a, tail) for a in segs] + \
+                            ['/p/%s/%s%s' % (a, b, tail) for a in segs[:4] for b in segs[:3]]
+                    cat_a.append({'pattern': '/p/<v%s%s>%s' % (op, ty, tail), 'mode': m, 'paths': paths})
     okA, why = True, ''
-    for c in cat_a:
-        out = native('pattern_case.py', c, repo_root=E.repo.root)
-        if out.get('fails') or 'harness_error' in out:
-            okA, why = False, out.get('why') or out.get('harness_error')
-            bad_case = c
-            break
+    out = native('pattern_case.py', {'batch': cat_a}, repo_root=E.repo.root, timeout=600)
+    if 'harness_error' in out:
+        pc.errors.append('pattern_case.py: %s' % out['harness_error'][-400:])
+    elif out.get('fails'):
+        okA, why, bad_case = False, out.get('why'), out['failing_case']
     it = Item('C05.T/conversions-and-assignment[no repeated slashes inside a multi binding]', 'T', [], z3.BoolVal(okA),
               note='real matcher vs declarative segment assignment on a fixed catalogue (%s)' % why)
     it.by = 'evaluation'
     if not okA:
         it.extra['native_case'] = {'script': 'pattern_case.py', 'case': bad_case}
     pc.add_item(it)
-    pc.bounded.append({'what': 'native comparison of the real matcher with the declarative matcher', 'cases': len(cat_a),
-                       'label': 'bounded', 'bound': 'fixed catalogue of patterns and paths'})
+    pc.bounded.append({'what': 'native comparison of the real matcher with the declarative matcher', 'cases': sum(len(c['paths']) for c in cat_a),
+                       'label': 'bounded', 'bound': 'fixed catalogue of patterns and paths: every type x operator x slash mode x trailing slash over segments incl. falsy conversions'})
     outB = native('pattern_case.py', {'pattern': '/<a*>', 'mode': 'rewrite', 'paths': ['/x//y']}, repo_root=E.repo.root)
     itB = Item('C05.T/conversions-and-assignment[repeated slashes inside a multi binding]', 'T', [],
                z3.BoolVal(not outB.get('fails')), note='multi converter keeps empty pieces (known finding F3): %s' % outB.get('why'))
